@@ -66,7 +66,7 @@ Jump), not the vertex the routine starts with, not yet marked for deletion, none
 def caseVertexOk (g : BGraph) (del : List Nat) (w : Nat) : Bool :=
   w != 0 && !del.contains w &&
   (match g.vs[w]? with
-   | some ⟨_, .item (.ljump r _ _), none, _, [], _, _, _⟩ => !isJump r.name
+   | some ⟨_, .item (.ljump r _ _), none, _, [], _, _, _, _, _, _, _, _, _, _⟩ => !isJump r.name
    | _ => false) &&
   g.es.all fun e => !(e.src == w) || !e.isElse
 
@@ -108,7 +108,7 @@ to `endV` -/
 def jumpOkS (g : BGraph) (j endV : Nat) : Bool :=
   j != 0 &&
   (match g.vs[j]? with
-   | some ⟨_, .item (.ljump r _ _), none, _, [], _, _, _⟩ => isJump r.name
+   | some ⟨_, .item (.ljump r _ _), none, _, [], _, _, _, _, _, _, _, _, _, _⟩ => isJump r.name
    | _ => false) &&
   (match g.inIds j with
    | [_] => true
